@@ -20,11 +20,31 @@ Explicit-state breadth-first search over HISTORIES of runs that share one cache 
     (ii) gen-independent expectations computed from the VCF text for the unambiguous core
          (oracles/c18_expected.py).
   One extra shard drives Molecule.allele (the DA tag value) through every mode for every configuration.
+
+Audit extensions
+  * run VARIANTS (a 7th run letter): verbose=True, a pickle round trip of the resolver before every access (how the taggers hand
+    it to worker processes), region_start/region_end bounded resolvers, chrom=<contig>, and an unwritable cache directory
+    (every open-for-writing below it fails with EACCES).  Bounded / chrom runs are obliged to answer like the unbounded eager
+    resolver INSIDE the requested window (start <= position < end; the end position itself and everything outside is left
+    open: there an answer may be missing, but never different from the VCF); what such a run leaves in the cache directory is
+    part of the search state, so a later unbounded run that reads it is checked like any other.
+  * a second initial cache state: '<name>.unfinished' left-overs of an interrupted writer for every cache file name.
+  * VCF: haploid / triploid genotypes, lower-case bases, the * allele, duplicate positions, mixed SNV+indel multi-allelic
+    records, four alleles; contig order of the file differs from the header.
+  * contig-name shards: a second VCF (contigs KN1, KZ2, chrUn_3, x_random, ERCC-4 - never cached by name -, chr5 / chr5_al /
+    chr5_alt, HLA-A*01), every ordered pair of configurations sharing one cache directory, all answers against the eager
+    resolver.
+  * DA shards: the resolver goes through MoleculeIterator(molecule_class_args=...) over a BAM with reads on every contig
+    (one two-fragment molecule per contig), Molecule.write_tags() writes DA; the DA tags of all reads are compared between
+    the eager resolver and every other mode (also pickled), for whole-file iteration and for contig orders that return to an
+    evicted contig.
 """
 import atexit
+import errno
 import gzip
 import itertools
 import os
+import pickle
 import shutil
 import sys
 import tempfile
@@ -43,11 +63,20 @@ RULE = ('breadth-first search over histories of runs sharing one allele-cache di
         'VCF-text oracle; states = distinct (cache state, run) cases, counter cache_states = distinct cache '
         'states expanded; a case is non-trivial when the run finds a cache file written by an EARLIER run for a '
         'contig it accesses, or returns to a contig that was evicted by loading another one; plus one shard of '
-        'Molecule.allele conformance cases (6 resolver runs each)')
+        'Molecule.allele conformance cases (6 resolver runs each); run variants (verbose / pickled before every access / '
+        'region-bounded / chrom= / unwritable cache) follow every plain run whose access sequence is short enough '
+        '(bounds: variant_access_length_by_history_level; below level 0 only in the two cache modes, the others never touch '
+        'the cache); a second initial state holds <name>.unfinished left-overs; DA shards: MoleculeIterator + write_tags '
+        'over a BAM, 9 resolver runs per case; contig-name shards: a second VCF whose contigs carry the never-cached name '
+        'patterns, prefixes of one another and a *, every ordered pair of configurations in one cache directory, 4 runs per case')
 ASSUMPTIONS = [
     'lookup positions are >= 0 (the loader plants a sentinel at position -1)',
-    'the VCF is bgzipped, tabix-indexed and readable by pysam; each site occurs once',
-    'the independent VCF-text oracle only speaks about sites whose REF/ALT are single nucleotides and whose selected '
+    'the VCF is bgzipped, tabix-indexed and readable by pysam (uglyMode=True refuses such a file in every loading mode '
+    'and labels REF/ALT instead of samples: outside the property)',
+    'region_start/region_end/chrom restrict what a resolver must know: inside [region_start, region_end) of the prepared '
+    'contig it must answer like the unbounded resolver; at region_end and outside an answer may be missing but never wrong',
+    'an unwritable cache directory may be refused with an exception, but not answered differently',
+    'the independent VCF-text oracle only speaks about sites that occur once, whose REF/ALT are upper-case single nucleotides and whose selected '
     'samples have no missing allele, with phased=True; all other sites and phased=False are covered by the '
     'all-modes-agree comparison only',
     'an empty set counts as "nothing"',
@@ -65,22 +94,76 @@ MODE_KW = {
 }
 CACHE_MODES = ('cache', 'cache+eager')
 SELECTS = (None, (G.S1, G.S2), (G.S1,), (G.S1, G.S3))
-IGNORES = (None, (('C', 'T'), ('G', 'A')))
+IGNORES = (None, (('C', 'T'), ('G', 'A')), (('T', 'C'), ('A', 'G')))
+BASE_IGNORES = 2            # the third one is only reached through the run variant 'ignore=T>C,A>G'
 PHASED = (True, False)
 FIRSTS = ('g', 'h')          # g: getAllelesAt touches the contig first, h: has_location does
 SYMBOLS = G.CACHED_CONTIGS + ('c3_random', G.ABSENT)
 NODIR = ('<no cache directory>',)
 
 
+# run variants: name -> spec.  kw = extra constructor arguments; window = (first position, first position behind) the run is
+# obliged to know; chrom = the only contig it is obliged to know; pickle = round trip before every access; fault = cache
+# directory unwritable.  Simplest first.
+VARIANTS = {
+    'plain': {},
+    'verbose': {'kw': {'verbose': True}},
+    'pickle': {'pickle': True},
+    'region[2,9)': {'kw': {'region_start': 2, 'region_end': 9}, 'window': (2, 9)},
+    # chrom= only matters to a resolver that loads at construction; elsewhere it would repeat the variant above
+    'chrom=c2,region[2,9)': {'kw': {'chrom': 'c2', 'region_start': 2, 'region_end': 9}, 'window': (2, 9), 'chrom': 'c2',
+                             'only_modes': ('eager', 'cache+eager')},
+    'unwritable-cache': {'fault': True},
+    # a second non-empty set of ignored conversions (replaces {C>T,G>A}); what such a run writes is not expanded further
+    'ignore=T>C,A>G': {'ignore_index': 2, 'only_ii': 1, 'expand': False},
+    'chrom=c2': {'kw': {'chrom': 'c2'}, 'chrom': 'c2', 'only_modes': ('eager', 'cache+eager')},
+    'region[5,-)': {'kw': {'region_start': 5}, 'window': (5, None)},
+    'region(-,9)': {'kw': {'region_end': 9}, 'window': (None, 9)},
+}
+QUICK_VARIANTS = ('verbose', 'pickle', 'region[2,9)', 'chrom=c2,region[2,9)', 'unwritable-cache', 'ignore=T>C,A>G')
+THOROUGH_VARIANTS = QUICK_VARIANTS + ('chrom=c2', 'region[5,-)', 'region(-,9)')
+WINDOWS = {n: v['window'] for n, v in VARIANTS.items() if 'window' in v}
+
+
+DEEPEST_THOROUGH_VARIANTS = ('region[2,9)', 'ignore=T>C,A>G')     # the ones whose answers depend on what is already cached
+
+
+def tier_variants(tier):
+    """variants per history level"""
+    if tier == 'quick':
+        return (QUICK_VARIANTS, QUICK_VARIANTS)
+    return (THOROUGH_VARIANTS, THOROUGH_VARIANTS, DEEPEST_THOROUGH_VARIANTS)
+
+
+def var_of(run):
+    return run[6] if len(run) > 6 else 'plain'
+
+
+def cfg_of(run):
+    """(select index, EFFECTIVE ignore index, phased) of a run"""
+    return run[1], VARIANTS[var_of(run)].get('ignore_index', run[2]), run[3]
+
+
 def bounds(tier):
     b = {'modes': list(MODES), 'select_samples': [None, ['S1', 'S2'], ['S1'], ['S1', 'S3']], 'sample_names': 'about 70 characters each; S2 and S3 share their first 57',
-         'ignore_conversions': [None, [['C', 'T'], ['G', 'A']]], 'phased': [True, False],
+         'ignore_conversions': [None, [['C', 'T'], ['G', 'A']], 'as a run variant: [[T, C], [A, G]]'], 'phased': [True, False],
          'first_operation': ['getAllelesAt', 'has_location'], 'access_symbols': list(SYMBOLS),
-         'vcf': {'samples': 3, 'contigs_with_records': 3, 'site_classes_per_contig': len(G.TEMPLATE)},
+         'vcf': {'samples': 3, 'contigs_with_records': 3, 'site_classes_per_contig': len(G.TEMPLATE),
+                 'contig_order_in_file': list(G.FILE_ORDER), 'contig_order_in_header': list(G.CONTIGS)},
          'probe_positions': [0, G.MAX_POS0 + 1], 'probe_bases': list(G.PROBE_BASES)}
     # entry k = longest access sequence of a run that starts in a cache state reached by k earlier runs
     b['max_access_sequence_length_by_history_level'] = [3, 2] if tier == 'quick' else [3, 3, 2]
     b['history_depth'] = len(b['max_access_sequence_length_by_history_level'])
+    b['run_variants_by_history_level'] = [['plain'] + list(v) for v in tier_variants(tier)]
+    # entry k = longest access sequence of a VARIANT run at history level k (level >= 1: cache modes only)
+    b['variant_access_length_by_history_level'] = [2, 1] if tier == 'quick' else [2, 1, 1]
+    b['initial_cache_states'] = ['no cache directory', '<name>.unfinished left-over (truncated gzip) for every cache file name '
+                                 'a first run can write']
+    b['leftover_lineage'] = 'histories that start with the left-over files: first run from the full alphabet, later runs in the two cache modes with at most one access, plain'
+    b['contig_names'] = {'contigs': list(G.NAME_CONTIGS), 'never_cached_by_name': list(G.NAME_UNCACHED),
+                         'cases': 'all ordered pairs of the 16 configurations, 4 runs each in one cache directory'}
+    b['da_tag'] = {'resolver_runs_per_case': list(DA_HISTORY), 'contig_orders': [list(o) if o else 'whole file' for o in DA_ORDERS],
+                   'molecules_per_contig': 3, 'fragments_in_first_molecule': 2}
     return b
 
 
@@ -93,21 +176,42 @@ def access_sequences(max_len=3):
     return out
 
 
-def chunk_runs(mode, phased, max_len):
-    """All runs of one (mode, phased) chunk, simplest first."""
+def chunk_runs(mode, phased, max_len, var_len=-1, variants=(), level=0):
+    """All runs of one (mode, phased) chunk, simplest first; every plain run is followed by its variants when its access
+    sequence is at most var_len long (below level 0 only for the modes that look at the cache directory)."""
+    with_variants = variants and (level == 0 or mode in CACHE_MODES)
     for acc in access_sequences(max_len):
         for si in range(len(SELECTS)):
-            for ii in range(len(IGNORES)):
+            for ii in range(BASE_IGNORES):
                 for first in FIRSTS:
-                    yield (mode, si, ii, phased, first, acc)
+                    yield (mode, si, ii, phased, first, acc, 'plain')
+                    if with_variants and len(acc) <= var_len:
+                        for v in variants:
+                            if VARIANTS[v].get('only_ii', ii) == ii and mode in VARIANTS[v].get('only_modes', MODES):
+                                yield (mode, si, ii, phased, first, acc, v)
 
 
 CHUNKS = [(m, p) for p in PHASED for m in MODES]
 
 
-def all_runs(max_len):
+def all_runs(max_len, var_len=-1, variants=(), level=0):
     for m, p in CHUNKS:
-        yield from chunk_runs(m, p, max_len)
+        yield from chunk_runs(m, p, max_len, var_len, variants, level)
+
+
+def runs_from(state, plan, chunk=None):
+    """The runs executed from `state` (all chunks, or one).  Histories that start with the left-over files are a thin slice
+    below level 0: the two cache modes, at most one access, plain runs (bounds: leftover_lineage)."""
+    lens, var_lens, variants = plan
+    thin = bool(state.initial) and state.level >= 1
+    for ci, (m, p) in enumerate(CHUNKS):
+        if chunk is not None and ci != chunk:
+            continue
+        if thin:
+            if m in CACHE_MODES:
+                yield from chunk_runs(m, p, min(1, lens[state.level]))
+        else:
+            yield from chunk_runs(m, p, lens[state.level], var_lens[state.level], variants[state.level], state.level)
 
 
 def generating_runs():
@@ -115,24 +219,33 @@ def generating_runs():
     discovery is verified while exploring: an undiscovered successor is explored on the spot)."""
     for acc in ((), (G.ABSENT,), ('c1',), ('c2',), ('c1', 'c2')):
         for si in range(len(SELECTS)):
-            for ii in range(len(IGNORES)):
+            for ii in range(BASE_IGNORES):
                 for p in PHASED:
                     for m in CACHE_MODES:
-                        yield (m, si, ii, p, 'g', acc)
+                        yield (m, si, ii, p, 'g', acc, 'plain')
+    # what a region-bounded run leaves behind (nothing new when bounded runs do not write partial cache files)
+    for acc in (('c1',), ('c2',), ('c1', 'c2')):
+        for si in range(len(SELECTS)):
+            for ii in range(BASE_IGNORES):
+                for p in PHASED:
+                    yield ('cache', si, ii, p, 'g', acc, 'region[2,9)')
 
 
 def run_to_json(run):
-    m, si, ii, p, first, acc = run
-    return {'mode': m, 'select_samples': list(SELECTS[si]) if SELECTS[si] else None,
-            'ignore_conversions': [list(x) for x in IGNORES[ii]] if IGNORES[ii] else None,
-            'phased': p, 'first': 'has_location' if first == 'h' else 'getAllelesAt', 'access': list(acc)}
+    m, si, ii, p, first, acc = run[:6]
+    j = {'mode': m, 'select_samples': list(SELECTS[si]) if SELECTS[si] else None,
+         'ignore_conversions': [list(x) for x in IGNORES[ii]] if IGNORES[ii] else None,
+         'phased': p, 'first': 'has_location' if first == 'h' else 'getAllelesAt', 'access': list(acc)}
+    if var_of(run) != 'plain':
+        j['variant'] = var_of(run)
+    return j
 
 
 def run_from_json(j):
     sel = tuple(j['select_samples']) if j['select_samples'] else None
     ign = tuple(tuple(x) for x in j['ignore_conversions']) if j['ignore_conversions'] else None
     return (j['mode'], SELECTS.index(sel), IGNORES.index(ign), bool(j['phased']),
-            'h' if j['first'] == 'has_location' else 'g', tuple(j['access']))
+            'h' if j['first'] == 'has_location' else 'g', tuple(j['access']), j.get('variant') or 'plain')
 
 
 # ------------------------------------------------------------------------------------------------ files
@@ -190,13 +303,34 @@ def cached_for(contig, state):
 
 
 class State:
-    __slots__ = ('key', 'raw', 'text', 'history', 'level')
+    __slots__ = ('key', 'raw', 'text', 'history', 'level', 'initial')
 
-    def __init__(self, key, raw, text, history, level):
+    def __init__(self, key, raw, text, history, level, initial=None):
         self.key, self.raw, self.text, self.history, self.level = key, raw, text, history, level
+        self.initial = initial      # None, or {file name: bytes} put into the cache directory before the first run
 
 
 EMPTY = State(NODIR, {}, {}, (), 0)
+
+
+def _text_of(raw_bytes):
+    try:
+        return gzip.decompress(raw_bytes).decode('latin-1')
+    except Exception:
+        return 'RAW:' + raw_bytes.decode('latin-1')
+
+
+def initial_state(files):
+    """A cache directory that exists before the first run (not produced by the code under test)."""
+    text = {n: _text_of(r) for n, r in files.items()}
+    return State(tuple(sorted(text.items())), dict(files), text, (), 0, dict(files))
+
+
+def case_of(state, run):
+    case = {'history': [run_to_json(r) for r in state.history + (run,)]}
+    if state.initial:
+        case['initial_cache'] = {n: r.decode('latin-1') for n, r in sorted(state.initial.items())}
+    return case
 
 
 def _restore(vcf_path, state):
@@ -230,10 +364,7 @@ def _snapshot(vcf_path, before):
         if before.raw.get(name) == r:
             text[name] = before.text[name]
         else:
-            try:
-                text[name] = gzip.decompress(r).decode('latin-1')
-            except Exception:
-                text[name] = 'RAW:' + r.decode('latin-1')
+            text[name] = _text_of(r)
     key = tuple(sorted(text.items()))
     return key, raw, text
 
@@ -242,11 +373,47 @@ def _snapshot(vcf_path, before):
 
 def _resolver(vcf_path, run):
     from singlecellmultiomics.alleleTools import AlleleResolver
-    mode, si, ii, phased = run[0], run[1], run[2], run[3]
+    mode = run[0]
+    si, ii, phased = cfg_of(run)
+    kw = dict(MODE_KW[mode])
+    kw.update(VARIANTS[var_of(run)].get('kw', {}))
     return AlleleResolver(vcf_path,
                           select_samples=list(SELECTS[si]) if SELECTS[si] else None,
                           ignore_conversions=set(IGNORES[ii]) if IGNORES[ii] else None,
-                          phased=phased, **MODE_KW[mode])
+                          phased=phased, **kw)
+
+
+class _NoWriteGzip:
+    """stands in for the gzip module inside alleleTools: opening anything below `root` for writing fails like it does in a
+    read-only directory (the checks run as root, where chmod does not make a directory read-only)"""
+
+    def __init__(self, real, root):
+        self._real, self._root = real, os.path.abspath(root)
+
+    def open(self, filename, mode='rb', *a, **k):
+        if any(c in mode for c in 'wax+') and os.path.abspath(os.fsdecode(filename)).startswith(self._root):
+            raise PermissionError(errno.EACCES, 'Permission denied (injected: read-only cache directory)', str(filename))
+        return self._real.open(filename, mode, *a, **k)
+
+    def __getattr__(self, name):
+        return getattr(self._real, name)
+
+
+class _unwritable_cache:
+    def __init__(self, vcf_path, active):
+        self.root, self.active = _cache_dir(vcf_path), active
+
+    def __enter__(self):
+        self.mod = None
+        if self.active:
+            import singlecellmultiomics.alleleTools.alleleTools as AT
+            if hasattr(AT, 'gzip'):
+                self.mod, self.real = AT, AT.gzip
+                AT.gzip = _NoWriteGzip(AT.gzip, self.root)
+
+    def __exit__(self, *a):
+        if self.mod is not None:
+            self.mod.gzip = self.real
 
 
 _ALT_READS = {}
@@ -300,10 +467,14 @@ def _observe(ar, contig, first, with_reads=False):
 def _execute(vcf_path, run):
     """One run on the real code. -> ([(h0, lookups, h1) per access], exception or None)"""
     obs = []
+    spec = VARIANTS[var_of(run)]
     try:
-        ar = _resolver(vcf_path, run)
-        for contig in run[5]:
-            obs.append(_observe(ar, contig, run[4], with_reads=(run[4] == 'g')))
+        with _unwritable_cache(vcf_path, spec.get('fault')):
+            ar = _resolver(vcf_path, run)
+            for contig in run[5]:
+                if spec.get('pickle'):
+                    ar = pickle.loads(pickle.dumps(ar))      # what multiprocessing does with the resolver of a tagging task
+                obs.append(_observe(ar, contig, run[4], with_reads=(run[4] == 'g')))
     except Exception as e:       # the code under test failed: a violation, reported by the caller
         return obs, e
     return obs, None
@@ -328,6 +499,7 @@ def setup():
     _MASTER = os.path.join(_ROOT, 'master')
     os.mkdir(_MASTER)
     G.build(_MASTER)
+    G.build_names(_MASTER)
     with open(os.path.join(_MASTER, 'alleles.vcf')) as f:
         _VCF_TEXT = f.read()
     for si in range(len(SELECTS)):
@@ -359,6 +531,7 @@ def setup():
                     EXP[key][c] = (lk, has, unknown, frozenset(site))
     if not any(REF[k][c][0] for k in REF for c in SYMBOLS):
         raise HarnessError('the eager reference resolver answers nothing at all: VCF generation is broken')
+    _names_reference()
 
 
 def _kind(contig):
@@ -367,21 +540,38 @@ def _kind(contig):
     return 'cached-contig' if contig in G.CACHED_CONTIGS else 'uncached-contig'
 
 
-def _lookup_signature(run, contig, lk, pre, never_answered):
-    mode, si, ii, phased = run[0], run[1], run[2], run[3]
+def _restrict(lk, window):
+    lo, hi = window
+    return tuple(x for x in lk if (lo is None or x[0] >= lo) and (hi is None or x[0] < hi))
+
+
+def _lookup_signature(run, contig, lk, pre, never_answered, earlier=()):
+    mode = run[0]
+    si, ii, phased = cfg_of(run)
+    full = REF[(si, ii, phased)][contig][0]
+    if mode in CACHE_MODES and cached_for(contig, pre):
+        # an earlier region-bounded cache run of the same configuration touched the contig, and the answers are exactly
+        # what the VCF says inside its window (possibly nothing at all)
+        for r in earlier:
+            w = VARIANTS[var_of(r)].get('window')
+            if w and r[0] in CACHE_MODES and cfg_of(r) == (si, ii, phased) and contig in r[5] and _restrict(full, w) == lk:
+                return 'cache:reused-across-region-bounds'
     if mode == 'cache+eager' and never_answered:
         return 'flags:use_cache-without-lazyLoad-returns-nothing'
     if mode in CACHE_MODES and cached_for(contig, pre):
         # the answers came out of a cache file of an earlier run: whose answers are they?
-        for ii2, ph2, label in ((1 - ii, phased, 'ignore_conversions'), (ii, not phased, 'phased'),
-                                (1 - ii, not phased, 'ignore_conversions+phased')):
+        if lk and any(_restrict(full, w) == lk for w in WINDOWS.values()):
+            return 'cache:reused-across-region-bounds'
+        others = [x for x in range(len(IGNORES)) if x != ii]
+        for ii2, ph2, label in ([(x, phased, 'ignore_conversions') for x in others] + [(ii, not phased, 'phased')] +
+                                [(x, not phased, 'ignore_conversions+phased') for x in others]):
             if REF[(si, ii2, ph2)][contig][0] == lk:
                 return f'cache:reused-across-{label}'
         for si2 in range(len(SELECTS)):
-            if si2 != si and any(REF[(si2, i2, p2)][contig][0] == lk for i2 in (0, 1) for p2 in PHASED):
+            if si2 != si and any(REF[(si2, i2, p2)][contig][0] == lk for i2 in range(len(IGNORES)) for p2 in PHASED):
                 return 'cache:reused-across-select_samples'
         for c2 in SYMBOLS:
-            if c2 != contig and any(REF[k][c2][0] == lk for k in REF):
+            if lk and c2 != contig and any(REF[k][c2][0] == lk for k in REF):     # (no answers at all is nobody's answer)
                 return 'cache:reused-across-contigs'
         return f'{mode}:cache-read-differs-from-eager'
     return f'{mode}:lookup-differs-from-eager:{_kind(contig)}'
@@ -428,19 +618,75 @@ def _oracle_violations(key, contig, lk, h1):
     return out
 
 
-def check_run(run, pre, obs, exc):
-    """-> [(signature, detail)] for one executed run that started in cache state `pre`."""
-    mode, si, ii, phased, first, access = run
-    key = (si, ii, phased)
+def _obliged(run, contig):
+    """-> None when the run has to know the whole contig, else a predicate over positions: where it has to."""
+    spec = VARIANTS[var_of(run)]
+    if 'window' not in spec and 'chrom' not in spec:
+        return None
+    lo, hi = spec.get('window', (None, None))
+    mine = spec.get('chrom') in (None, contig)
+    return lambda p: mine and (lo is None or p >= lo) and (hi is None or p < hi)
+
+
+def _check_bounded(run, pre, i, contig, inside, h0, lk, h1, ref_lk, ref_h, earlier=()):
+    """A region-bounded / chrom= run: like the unbounded eager resolver where it is obliged to know the VCF; elsewhere an
+    answer may be missing, but what is answered is what the VCF says."""
+    mode = run[0]
+    out = []
+    got_in = tuple(x for x in lk if inside(x[0]))
+    ref_in = tuple(x for x in ref_lk if inside(x[0]))
+    if got_in != ref_in:
+        how = 'cache-read' if (mode in CACHE_MODES and cached_for(contig, pre)) else 'lookup'
+        poisoned = how == 'cache-read' and any(
+            VARIANTS[var_of(r)].get('window') and r[0] in CACHE_MODES and cfg_of(r) == cfg_of(run) and contig in r[5] and
+            tuple(x for x in _restrict(ref_lk, VARIANTS[var_of(r)]['window']) if inside(x[0])) == got_in for r in earlier)
+        out.append(('cache:reused-across-region-bounds' if poisoned else
+                    f'{mode}:{how}-differs-from-eager-inside-the-region:{_kind(contig)}',
+                    {'access_index': i, 'contig': contig, 'answers_inside': len(got_in), 'eager_answers_inside': len(ref_in),
+                     'first_differences(pos,base,samples)': sorted(set(got_in) ^ set(ref_in))[:4]}))
+    by_pos, ref_by_pos = {}, {}
+    for x in lk:
+        if not inside(x[0]):
+            by_pos.setdefault(x[0], []).append(x)
+    for x in ref_lk:
+        ref_by_pos.setdefault(x[0], []).append(x)
+    wrong = [p for p, v in sorted(by_pos.items()) if v != ref_by_pos.get(p)]
+    if wrong:
+        out.append((f'{mode}:answer-outside-the-region-differs-from-the-vcf:{_kind(contig)}',
+                    {'access_index': i, 'contig': contig, 'positions': wrong[:6]}))
+    rh = set(ref_h)
+    for h in (h0, h1):
+        if h is None:
+            continue
+        if tuple(p for p in h if inside(p)) != tuple(p for p in ref_h if inside(p)):
+            out.append((f'has_location:{mode}:differs-from-eager-inside-the-region:{_kind(contig)}',
+                        {'access_index': i, 'contig': contig, 'got': list(h), 'eager': list(ref_h)}))
+        elif any(p not in rh for p in h):
+            out.append((f'has_location:{mode}:true-outside-the-region-where-eager-says-false:{_kind(contig)}',
+                        {'access_index': i, 'contig': contig, 'positions': [p for p in h if p not in rh][:6]}))
+    return out
+
+
+def check_run(run, pre, obs, exc, earlier=None):
+    """-> [(signature, detail)] for one executed run that started in cache state `pre` (reached by the runs `earlier`)."""
+    if earlier is None:
+        earlier = pre.history or ()
+    mode, first, access = run[0], run[4], run[5]
+    var = var_of(run)
+    key = cfg_of(run)
     out = []
     never_answered = not any(lk or h1 or h0 for h0, lk, h1 in obs)
     for i, (h0, lk, h1) in enumerate(obs):
         contig = access[i]
         ref_lk, ref_h = REF[key][contig]
+        inside = _obliged(run, contig)
+        if inside is not None:
+            out.extend(_check_bounded(run, pre, i, contig, inside, h0, lk, h1, ref_lk, ref_h, earlier))
+            continue
         lookup_ok = (lk == ref_lk)
         if not lookup_ok:
             diff = sorted(set(lk) ^ set(ref_lk))[:4]
-            out.append((_lookup_signature(run, contig, lk, pre, never_answered),
+            out.append((_lookup_signature(run, contig, lk, pre, never_answered, earlier),
                         {'access_index': i, 'contig': contig, 'answers': len(lk), 'eager_answers': len(ref_lk),
                          'first_differences(pos,base,samples)': diff}))
         has_ok = (h1 == ref_h) and (h0 is None or h0 == ref_h)
@@ -454,8 +700,11 @@ def check_run(run, pre, obs, exc):
                 out.append((f'has_location:{mode}:{why}:{_kind(contig)}', det))
         if lookup_ok and has_ok:
             out.extend(_oracle_violations(key, contig, lk, h1))
-    if exc is not None:
+    if exc is not None and not VARIANTS[var].get('fault'):
+        # (an unwritable cache directory may be refused; answering differently is what is checked above)
         out.append((f'{mode}:exception:{type(exc).__name__}', {'access_index': len(obs), 'error': repr(exc)}))
+    if var != 'plain':
+        out = [(f'{var}:{s}', d) for s, d in out]
     seen = set()
     return [(s, d) for s, d in out if not (s in seen or seen.add(s))]
 
@@ -476,44 +725,78 @@ def _step(vcf_path, pre, run):
     _ON_DISK[os.getpid()] = key
     if key == pre.key:
         return obs, exc, pre
-    return obs, exc, State(key, raw, text, None, pre.level + 1)
+    return obs, exc, State(key, raw, text, None, pre.level + 1, pre.initial)
+
+
+def _leftover_state(first_level_states):
+    """Second initial state: an interrupted writer left '<name>.unfinished' (a truncated gzip stream) behind for every cache
+    file name a first run can produce.  (The temporary name is the documented write protocol: write, then rename.)"""
+    files = {}
+    for s in first_level_states:
+        for name, raw in s.raw.items():
+            if not name.endswith('.unfinished'):
+                files[name + '.unfinished'] = raw[:max(1, len(raw) // 2)]
+    return initial_state(files)
+
+
+def _register(state):
+    _INDEX[state.key] = len(_STATES)
+    _STATES.append(state)
+
+
+def _successors(vcf, s, level):
+    new = []
+    for run in generating_runs():
+        _obs, _exc, succ = _step(vcf, s, run)
+        if succ.key not in _INDEX:
+            succ.history = s.history + (run,)
+            succ.level = level
+            _register(succ)
+            new.append(succ)
+    return new
 
 
 def _discover(depth):
-    """States reachable in < depth runs (those are the ones that get expanded)."""
+    """States reachable in < depth runs (those are the ones that get expanded), from both initial states."""
     global _DEPTH
     if _DEPTH == depth:
         return
+    if depth < 2:
+        raise HarnessError('history depth must be at least 2')
     del _STATES[:]
     _INDEX.clear()
-    _STATES.append(EMPTY)
-    _INDEX[EMPTY.key] = 0
+    _register(EMPTY)
     _, vcf = _workdir()
     frontier = [EMPTY]
     for level in range(1, depth):
         new = []
         for s in frontier:
-            for run in generating_runs():
-                _obs, _exc, succ = _step(vcf, s, run)
-                if succ.key not in _INDEX:
-                    succ.history = s.history + (run,)
-                    succ.level = level
-                    _INDEX[succ.key] = len(_STATES)
-                    _STATES.append(succ)
-                    new.append(succ)
+            new.extend(_successors(vcf, s, level))
+        if level == 1:
+            left = _leftover_state(new)
+            if left.raw and left.key not in _INDEX:     # (no first run wrote anything: no such state)
+                _register(left)
+                new.extend(_successors(vcf, left, 1))
         frontier = new
     _restore(vcf, EMPTY)
     _DEPTH = depth
 
 
 def shards(tier):
-    lens = bounds(tier)['max_access_sequence_length_by_history_level']
+    b = bounds(tier)
+    lens = b['max_access_sequence_length_by_history_level']
     _discover(len(lens))
     out = []
     for sid in range(len(_STATES)):
         for ci in range(len(CHUNKS)):
-            out.append((sid, ci, tuple(lens)))
+            if _STATES[sid].initial and _STATES[sid].level >= 1 and CHUNKS[ci][0] not in CACHE_MODES:
+                continue
+            out.append((sid, ci, tuple(lens), tuple(b['variant_access_length_by_history_level']), tuple(tier_variants(tier))))
     out.append(('molecule',))
+    for k in range(DA_SHARDS):
+        out.append(('da', k))
+    for k in range(NAMES_SHARDS):
+        out.append(('names', k))
     return out
 
 
@@ -525,30 +808,44 @@ def _returns_to_evicted(access):
     return False
 
 
-def _explore(state, runs, lens, acc, local):
+def _explore(state, runs, plan, acc, local):
+    lens, var_lens, variants = plan
     _, vcf = _workdir()
     depth = len(lens)
+    twin = (None, frozenset())
     for run in runs:
         obs, exc, succ = _step(vcf, state, run)
         viols = check_run(run, state, obs, exc)
+        failed = bool(viols)
+        if var_of(run) == 'plain':
+            twin = (run[:6], frozenset(s for s, _ in viols))
+        elif twin[0] == run[:6]:
+            # what the plain run of the same history already reported is not reported again under the variant's name
+            viols = [(s, d) for s, d in viols if s.split(var_of(run) + ':', 1)[1] not in twin[1]]
         mode, si = run[0], run[1]
+        var = var_of(run)
         found = mode in CACHE_MODES and any(cached_for(c, state) for c in run[5])
         wrote = succ.key != state.key
         evict = mode != 'eager' and _returns_to_evicted(run[5])
         effect = '+'.join(x for x in ('finds-earlier-cache' if found else '', 'writes' if wrote else '') if x) or 'cache-untouched'
-        case = {'history': [run_to_json(r) for r in state.history + (run,)]}
+        case = case_of(state, run)
         acc.case(case, transitions=1 + len(run[5]) * (len(G.PROBE_POSITIONS) * (len(G.PROBE_BASES) + 1 + (run[4] == 'h'))),
                  nontrivial=bool(found or evict),
-                 outcome=f"{mode}|{effect}|{'return-to-evicted' if evict else 'no-return'}|{'VIOLATION' if viols else 'ok'}")
+                 outcome=f"{mode}|{effect}|{'return-to-evicted' if evict else 'no-return'}|{'VIOLATION' if failed else 'ok'}")
+        if var != 'plain':
+            refused = exc is not None and VARIANTS[var].get('fault')
+            acc.count(f"variant_runs[{var}]{'|refused' if refused else ''}", 1)
+        if state.initial:
+            acc.count('runs_from_a_history_that_starts_with_unfinished_leftovers', 1)
         for sig, det in viols:
             acc.violation(sig, case, det)
-        if wrote and succ.level < depth and succ.key not in _INDEX and succ.key not in local:
+        if wrote and succ.level < depth and VARIANTS[var].get('expand', True) and succ.key not in _INDEX and succ.key not in local:
             # the discovery pass missed this state: explore it here, completely, so the bound stays exhaustive
             local.add(succ.key)
             succ.history = state.history + (run,)
             acc.count('undiscovered_successor_states', 1)
             acc.count('cache_states', 1)
-            _explore(succ, all_runs(lens[succ.level]), lens, acc, local)
+            _explore(succ, runs_from(succ, plan), plan, acc, local)
 
 
 def run_shard(shard, tier, acc):
@@ -560,12 +857,35 @@ def run_shard(shard, tier, acc):
             for sig, det in viols:
                 acc.violation(sig, case, det)
         return
-    sid, ci, lens = shard
+    if shard[0] == 'da':
+        for n, case in enumerate(da_cases()):
+            if n % DA_SHARDS != shard[1]:
+                continue
+            viols, label, tagged = check_da(case)
+            acc.case(case, transitions=tagged, execs=len(DA_HISTORY), nontrivial=label == 'tags-differ-between-molecules',
+                     outcome=f'da|{label}')
+            for sig, det in viols:
+                acc.violation(sig, case, det)
+        return
+    if shard[0] == 'names':
+        for n, case in enumerate(names_cases()):
+            if n % NAMES_SHARDS != shard[1]:
+                continue
+            viols, nfiles, lookups = check_names(case)
+            same = case['names']['first'] == case['names']['second']
+            acc.case(case, transitions=lookups, execs=4, nontrivial=True,
+                     outcome=f"names|{'same' if same else 'different'}-configurations|{nfiles}-cache-files|{'VIOLATION' if viols else 'ok'}")
+            for sig, det in viols:
+                acc.violation(sig, case, det)
+        return
+    sid, ci, lens, var_lens, variants = shard
     state = _STATES[sid]
-    if ci == 0:
+    thin = bool(state.initial) and state.level >= 1
+    if ci == (MODES.index(CACHE_MODES[0]) if thin else 0):
         acc.count('cache_states', 1)
-        acc.count(f'cache_states_level_{state.level}', 1)
-    _explore(state, chunk_runs(CHUNKS[ci][0], CHUNKS[ci][1], lens[state.level]), lens, acc, set())
+        acc.count(f"cache_states_level_{state.level}{'_leftover_lineage' if state.initial else ''}", 1)
+    plan = (lens, var_lens, variants)
+    _explore(state, runs_from(state, plan, ci), plan, acc, set())
 
 
 # ------------------------------------------------------------------------------------------------ molecules
@@ -580,7 +900,7 @@ def molecule_cases():
     for contig in SYMBOLS:
         for hap in G.SAMPLES:
             for si in range(len(SELECTS)):
-                for ii in range(len(IGNORES)):
+                for ii in range(BASE_IGNORES):
                     for phased in PHASED:
                         yield {'molecule': {'contig': contig, 'haplotype_of': hap,
                                             'select_samples': list(SELECTS[si]) if SELECTS[si] else None,
@@ -601,7 +921,7 @@ def _haplotype_read(contig, hap):
         alleles = [ref] + alt.split(',')
         a = gts[col].replace('|', '/').split('/')[0]
         base = ref if a == '.' else alleles[int(a)]
-        seq[pos1 - 1] = base[0]
+        seq[pos1 - 1] = base[0] if base[0] in 'ACGT' else 'A'       # (* and lower-case alleles cannot be read bases)
     seq = ''.join(seq)
     r = pysam.AlignedSegment(header)
     r.query_name = 'm1'
@@ -657,6 +977,209 @@ def check_molecule(case, vcf=None):
     return [(s, d) for s, d in out if not (s in dedup or dedup.add(s))], str(ref[0])
 
 
+# ------------------------------------------------------------------------------------------------ DA tags
+
+# The resolver reaches the molecules the way the taggers pass it: MoleculeIterator(molecule_class_args={'allele_resolver': ..}).
+# One BAM with reads on every contig of the alphabet (per contig one molecule per sample haplotype; the first one has two
+# fragments), Molecule.write_tags() writes DA.  The same configuration goes through every loading mode in ONE directory; the
+# DA tags of all reads must equal those obtained with the eager cache-free resolver.
+DA_HISTORY = ('eager', 'lazy', 'cache', 'cache', 'cache+eager', 'cache+eager', 'eager+pickle', 'lazy+pickle', 'cache+pickle')
+DA_ORDERS = (None, ('c1', 'c2', 'c1'), ('c2', 'c3_random', G.ABSENT, 'c2'))
+DA_SHARDS = 8
+_DA_BAM = {}
+
+
+def da_cases():
+    for oi in range(len(DA_ORDERS)):
+        for si in range(len(SELECTS)):
+            for ii in range(BASE_IGNORES):
+                for phased in PHASED:
+                    yield {'da': {'contig_order': list(DA_ORDERS[oi]) if DA_ORDERS[oi] else None,
+                                  'select_samples': list(SELECTS[si]) if SELECTS[si] else None,
+                                  'ignore_conversions': [list(x) for x in IGNORES[ii]] if IGNORES[ii] else None,
+                                  'phased': phased}}
+
+
+def _da_bam():
+    pid = os.getpid()
+    if pid not in _DA_BAM:
+        import pysam
+        d, _ = _workdir()
+        path = os.path.join(d, 'molecules.bam')
+        reads = []
+        for contig in SYMBOLS:
+            for k, hap in enumerate(G.SAMPLES):
+                for dup in range(2 if k == 0 else 1):
+                    r = _haplotype_read(contig, hap)
+                    r.query_name = f'{contig}.hap{k + 1}.{dup}'
+                    r.set_tag('SM', f'cell{k + 1}')
+                    reads.append(r)
+        with pysam.AlignmentFile(path, 'wb', header=reads[0].header) as o:
+            for r in reads:
+                o.write(r)
+        pysam.index(path)
+        _DA_BAM.clear()
+        _DA_BAM[pid] = path
+    return _DA_BAM[pid]
+
+
+def _tag_all(ar, order, bam):
+    """-> ((read name, DA or None), ...) after MoleculeIterator + write_tags, contigs visited in `order` (None: the whole file)"""
+    import pysam
+    from singlecellmultiomics.molecule import Molecule, MoleculeIterator
+    from singlecellmultiomics.fragment import Fragment
+    out = []
+    with pysam.AlignmentFile(bam) as al:
+        for contig in (order or (None,)):
+            kw = {} if contig is None else {'contig': contig}
+            for m in MoleculeIterator(al, molecule_class=Molecule, fragment_class=Fragment,
+                                      molecule_class_args={'allele_resolver': ar}, **kw):
+                m.write_tags()
+                for read in m.iter_reads():
+                    out.append((read.query_name, read.get_tag('DA') if read.has_tag('DA') else None))
+    return tuple(out)
+
+
+def check_da(case, vcf=None):
+    j = case['da']
+    cfg = run_from_json({'mode': 'eager', 'select_samples': j['select_samples'], 'ignore_conversions': j['ignore_conversions'],
+                         'phased': j['phased'], 'first': 'getAllelesAt', 'access': []})
+    order = tuple(j['contig_order']) if j['contig_order'] else None
+    if vcf is None:
+        _, vcf = _workdir()
+        _restore(vcf, EMPTY)
+    bam = _da_bam()
+    seen, out = [], []
+    with _quiet():
+        for k, step in enumerate(DA_HISTORY):
+            mode = step.split('+pickle')[0]
+            try:
+                ar = _resolver(vcf, (mode,) + cfg[1:])
+                if step.endswith('+pickle'):
+                    ar = pickle.loads(pickle.dumps(ar))
+                seen.append(_tag_all(ar, order, bam))
+            except Exception as e:
+                seen.append(('error', repr(e)))
+                out.append((f'da-tag:{step}:exception:{type(e).__name__}', {'run_index': k, 'error': repr(e)}))
+    _ON_DISK[os.getpid()] = ('<dirty>',)
+    ref = seen[0]
+    for k, step in enumerate(DA_HISTORY):
+        if k and seen[k] != ref and seen[k][:1] != ('error',) and ref[:1] != ('error',):
+            diff = [(a, b) for a, b in zip(seen[k], ref) if a != b][:4]
+            second = ':second-run' if DA_HISTORY[k - 1] == step else ''
+            out.append((f'da-tag:{step}{second}:differs-from-eager', {'run_index': k, 'step': step, 'first (got, eager)': diff,
+                                                                       'reads_tagged': len(seen[k]), 'eager_reads_tagged': len(ref)}))
+    tags = {t for _n, t in ref} if ref[:1] != ('error',) else set()
+    label = 'error' if ref[:1] == ('error',) else ('tags-differ-between-molecules' if len(tags) > 1 else
+                                                    ('one-tag' if tags - {None} else 'untagged'))
+    dedup = set()
+    return [(s, d) for s, d in out if not (s in dedup or dedup.add(s))], label, (0 if ref[:1] == ('error',) else len(ref))
+
+
+# ------------------------------------------------------------------------------------------------ contig names
+
+# A second VCF whose contigs are named like the patterns the resolver treats specially (never cached: KN*, KZ*, chrUn*,
+# *_random, *ERCC*), names that are prefixes of one another, and a name with '*'.  Case = ordered pair of configurations
+# sharing one cache directory: [cache, A, contigs forward] [cache, B, backward] [cache+eager, B, forward then backward]
+# [lazy, B, forward then backward]; every lookup / has_location answer of every access is compared with the eager
+# cache-free resolver of the same configuration on the same VCF.
+NAMES_SHARDS = 4
+NAME_REF = {}       # (si, ii, phased) -> {contig: (lookups, has_location positions)}
+_NAMES_WORK = {}
+
+
+def names_cases():
+    cfgs = [(si, ii, ph) for ph in PHASED for si in range(len(SELECTS)) for ii in range(BASE_IGNORES)]
+    for a in cfgs:
+        for b in cfgs:
+            yield {'names': {'first': _cfg_json(a), 'second': _cfg_json(b)}}
+
+
+def _cfg_json(c):
+    si, ii, ph = c
+    return {'select_samples': list(SELECTS[si]) if SELECTS[si] else None,
+            'ignore_conversions': [list(x) for x in IGNORES[ii]] if IGNORES[ii] else None, 'phased': ph}
+
+
+def _cfg_from_json(j):
+    r = run_from_json(dict(j, mode='eager', first='getAllelesAt', access=[]))
+    return r[1], r[2], r[3]
+
+
+def _observe_names(ar, contig):
+    lk = []
+    for p in G.NAME_PROBE_POSITIONS:
+        for b in G.PROBE_BASES:
+            r = ar.getAllelesAt(contig, p, b)
+            if r is not None and len(r) > 0:
+                lk.append((p, b, tuple(sorted(r))))
+    return tuple(lk), tuple(p for p in G.NAME_PROBE_POSITIONS if ar.has_location(contig, p))
+
+
+def _names_vcf():
+    pid = os.getpid()
+    if pid not in _NAMES_WORK:
+        d, _ = _workdir()
+        _NAMES_WORK.clear()
+        _NAMES_WORK[pid] = G.clone_names(_MASTER, os.path.join(d, 'names'))
+    return _NAMES_WORK[pid]
+
+
+def _names_reference():
+    if NAME_REF:
+        return
+    d = tempfile.mkdtemp(prefix='nref_', dir=_ROOT)
+    vcf = G.clone_names(_MASTER, d)
+    with _quiet():
+        for si in range(len(SELECTS)):
+            for ii in range(BASE_IGNORES):
+                for ph in PHASED:
+                    ar = _resolver(vcf, ('eager', si, ii, ph))
+                    NAME_REF[(si, ii, ph)] = {c: _observe_names(ar, c) for c in G.NAME_CONTIGS}
+    shutil.rmtree(d)
+    if not all(NAME_REF[(0, 0, True)][c][0] for c in G.NAME_CONTIGS):
+        raise HarnessError('the eager resolver has a contig without answers in the contig-names VCF')
+
+
+def check_names(case, vcf=None):
+    a, b = _cfg_from_json(case['names']['first']), _cfg_from_json(case['names']['second'])
+    if vcf is None:
+        vcf = _names_vcf()
+    cd = _cache_dir(vcf)
+    if os.path.lexists(cd):
+        shutil.rmtree(cd)
+    fwd = tuple(G.NAME_CONTIGS)
+    plan = (('cache', a, fwd), ('cache', b, fwd[::-1]), ('cache+eager', b, fwd + fwd[::-1]), ('lazy', b, fwd + fwd[::-1]))
+    out = []
+    lookups = 0
+    with _quiet():
+        for k, (mode, cfg, order) in enumerate(plan):
+            try:
+                ar = _resolver(vcf, (mode,) + cfg)
+                for contig in order:
+                    lk, h = _observe_names(ar, contig)
+                    lookups += 1
+                    ref_lk, ref_h = NAME_REF[cfg][contig]
+                    kind = 'never-cached-name' if contig in G.NAME_UNCACHED else 'cached-name'
+                    if lk != ref_lk:
+                        if any(c2 != contig and NAME_REF[cfg][c2][0] == lk for c2 in G.NAME_CONTIGS):
+                            sig = f'contig-names:{mode}:answers-of-another-contig:{kind}'
+                        elif any(k2 != cfg and NAME_REF[k2][contig][0] == lk for k2 in NAME_REF):
+                            sig = f'contig-names:{mode}:answers-of-another-configuration:{kind}'
+                        else:
+                            sig = f'contig-names:{mode}:lookup-differs-from-eager:{kind}'
+                        out.append((sig, {'run_index': k, 'contig': contig, 'answers': len(lk), 'eager_answers': len(ref_lk),
+                                          'first_differences': sorted(set(lk) ^ set(ref_lk))[:4]}))
+                    elif h != ref_h:
+                        out.append((f'contig-names:has_location:{mode}:differs-from-eager:{kind}',
+                                    {'run_index': k, 'contig': contig, 'got': list(h), 'eager': list(ref_h)}))
+            except Exception as e:
+                out.append((f'contig-names:{mode}:exception:{type(e).__name__}', {'run_index': k, 'error': repr(e)}))
+    files = sorted(os.listdir(cd)) if os.path.isdir(cd) else []
+    dedup = set()
+    return [(s, d) for s, d in out if not (s in dedup or dedup.add(s))], len(files), lookups
+
+
 # ------------------------------------------------------------------------------------------------ replay
 
 def replay(case):
@@ -668,12 +1191,24 @@ def replay(case):
         vcf = G.clone(_MASTER, d)
         if 'molecule' in case:
             return check_molecule(case, vcf)[0]
+        if 'da' in case:
+            return check_da(case, vcf)[0]
+        if 'names' in case:
+            return check_names(case, G.clone_names(_MASTER, os.path.join(d, 'names')))[0]
         pre = EMPTY
+        if case.get('initial_cache'):
+            pre = initial_state({n: t.encode('latin-1') for n, t in case['initial_cache'].items()})
+            os.mkdir(_cache_dir(vcf))
+            for name, raw in pre.raw.items():
+                with open(os.path.join(_cache_dir(vcf), name), 'wb') as f:
+                    f.write(raw)
+        earlier = []
         for j in case['history']:
             run = run_from_json(j)
             with _quiet():
                 obs, exc = _execute(vcf, run)
-            out.extend(check_run(run, pre, obs, exc))
+            out.extend(check_run(run, pre, obs, exc, tuple(earlier)))
+            earlier.append(run)
             key, raw, text = _snapshot(vcf, pre)
             pre = State(key, raw, text, None, 0)
     finally:
